@@ -220,3 +220,70 @@ def sub_dot(sh, a, b):
         t = '(%s - %s) * (%s - %s)' % (ev(sh, a, i), ev(sh, b, i), ev(sh, a, i), ev(sh, b, i))
         e = t if e is None else '(%s + %s)' % (e, t)
     return e
+
+
+def add_spatial_full(u, sh):
+    """the rest of vec_impl_spatial! (needs the ops Clamp trait + R impl in the unit for angle_between)"""
+    from sym import SV
+    from matcore import veq
+    import expr as X
+    from expr import app, const
+    add_spatial_basic(u, sh)
+    P, N = sh.path, sh.name
+    gh = 'impl<T>%s<T>' % N
+    a = SV.of(sh, 'self')
+    n2 = a.norm2()
+    mag = app('sqrt_r', n2)
+    n2s, mags = X.verus(n2), X.verus(mag)
+    f = sh.fields
+    u.take(P, gh, 'normalized_and_get_magnitude', C(ensures=['res.0.%s.v@ == self.%s.v@ / %s' % (x, x, mags) for x in f] + ['res.1.v@ == ' + mags]))
+    ao = SV.of(sh, 'old(self)')
+    mo = X.verus(app('sqrt_r', ao.norm2()))
+    u.take(P, gh, 'normalize', C(ret=None, ensures=['final(self).%s.v@ == old(self).%s.v@ / %s' % (x, x, mo) for x in f]))
+    u.take(P, gh, 'normalize_and_get_magnitude', C(ensures=['final(self).%s.v@ == old(self).%s.v@ / %s' % (x, x, mo) for x in f] + ['res.v@ == ' + mo]))
+    E2 = ('T', 'E')
+    close = lambda xx: 'rel_eq_r(%s, %s, eps_r() + eps_r() + eps_r() + eps_r(), eps_r() + eps_r() + eps_r() + eps_r())' % (n2s, xx)
+    u.take(P, gh, 'is_magnitude_close_to', C(ensures=['res == ' + close('x.v@ * x.v@')]), tparams=E2)
+    u.take(P, gh, 'is_normalized', C(ensures=['res == ' + close('1real * 1real')]), tparams=E2)
+    u.take(P, gh, 'is_approx_zero', C(ensures=['res == ' + close('0real * 0real')]), tparams=E2)
+    u.take(P, gh, 'try_normalized', C(ensures=[
+        '%s ==> res.is_none()' % close('0real * 0real'),
+        '(!%s) ==> (res.is_some() && %s)' % (close('0real * 0real'), ' && '.join('res.unwrap().%s.v@ == self.%s.v@ / %s' % (x, x, mags) for x in f))]),
+        tparams=E2)
+    # shared sub-terms (the dot products) are bound once with `let`: the printed contract stays linear in the dimension
+    nrm = SV.of(sh, 'surface_normal')
+    dv = X.var('d', verus='d')
+    u.take(P, gh, 'reflected', C(ensures=['({ let d = %s; %s })' % (
+        X.verus(a.dot(nrm)), ' && '.join('res.%s.v@ == %s' % (f[i], X.verus(a[i] - nrm[i] * (dv + dv))) for i in range(sh.dim)))]))
+    eta = X.var('eta', verus='eta.v@')
+    ndv, kv = X.var('nd', verus='nd'), X.var('k', verus='k')
+    kexpr = const(1) - (eta * eta) * (const(1) - ndv * ndv)
+    refr = [a[i] * eta - nrm[i] * (eta * ndv + app('sqrt_r', kv)) for i in range(sh.dim)]
+    u.take(P, gh, 'refracted', C(ensures=['({ let nd = %s; let k = %s; ((k < 0real) ==> (%s)) && ((!(k < 0real)) ==> (%s)) })' % (
+        X.verus(nrm.dot(a)), X.verus(kexpr), ' && '.join('res.%s.v@ == 0real' % x for x in f),
+        ' && '.join('res.%s.v@ == %s' % (f[i], X.verus(refr[i])) for i in range(sh.dim)))]))
+    inc, ref = SV.of(sh, 'incident'), SV.of(sh, 'reference')
+    u.take(P, gh, 'face_forward', C(ensures=['({ let rd = %s; ((rd < 0real) ==> (%s)) && ((rd > 0real) ==> (%s)) })' % (
+        X.verus(ref.dot(inc)), ' && '.join('res.%s.v@ == self.%s.v@' % (x, x) for x in f),
+        ' && '.join('res.%s.v@ == -self.%s.v@' % (x, x) for x in f))]))
+    v = SV.of(sh, 'v')
+    ma, mb = X.var('ma', verus='ma'), X.var('mb', verus='mb')
+    cosang = X.sum_([(a[i] / ma) * (v[i] / mb) for i in range(sh.dim)])
+    lets = 'let ma = %s; let mb = %s; let c = %s; let cl = if c < -1real { -1real } else if c > 1real { 1real } else { c };' % (
+        X.verus(mag), X.verus(app('sqrt_r', v.norm2())), X.verus(cosang))
+    u.take(P, gh, 'angle_between', C(ensures=['({ %s res.v@ == acos_r(cl) })' % lets]))
+    u.take(P, gh, 'angle_between_degrees', C(ensures=['({ %s res.v@ == acos_r(cl) * 180real / pi_r() })' % lets]))
+    if N == 'Vec2':
+        aa, bb = SV.of(sh, 'a'), SV.of(sh, 'b')
+        side = (bb[0] - aa[0]) * (a[1] - aa[1]) - (bb[1] - aa[1]) * (a[0] - aa[0])
+        u.take(P, gh, 'determine_side', C(ensures=['res.v@ == ' + X.verus(side)]))
+        cc = SV.of(sh, 'c')
+        area = ((bb[0] - aa[0]) * (cc[1] - aa[1]) - (bb[1] - aa[1]) * (cc[0] - aa[0])) / const(2)
+        u.take(P, gh, 'signed_triangle_area', C(ensures=['res.v@ == ' + X.verus(area)]))
+        u.take(P, gh, 'triangle_area', C(ensures=['res.v@ == abs_r(%s)' % X.verus(area)]))
+    if N == 'Vec4':
+        u.take(P, gh, 'homogenized', C(ensures=['res.%s.v@ == self.%s.v@ / self.w.v@' % (x, x) for x in f]))
+        u.take(P, gh, 'homogenize', C(ret=None, ensures=['final(self).%s.v@ == old(self).%s.v@ / old(self).w.v@' % (x, x) for x in f]))
+        u.take(P, gh, 'is_point', C(ensures=['res == rel_eq_r(self.w.v@, 1real, eps_r(), eps_r())']))
+        u.take(P, gh, 'is_direction', C(ensures=['res == rel_eq_r(self.w.v@, 0real, eps_r(), eps_r())']))
+        u.take(P, gh, 'is_homogeneous', C(ensures=['res == (rel_eq_r(self.w.v@, 1real, eps_r(), eps_r()) || rel_eq_r(self.w.v@, 0real, eps_r(), eps_r()))']))
